@@ -47,6 +47,7 @@ var targets = []target{
 	{Pkg: "grpcadapter", Name: "decodeTimeout"},
 	// C20
 	{Pkg: "internal/httprule", Name: "isHex"},
+	{Pkg: "internal/httprule", Name: "consumePchar"},
 	{Pkg: "internal/httprule/gwbased", Name: "isHexDigit"},
 	// C14
 	{Pkg: "routing", Name: "parseRPCName"},
@@ -182,6 +183,7 @@ type tr struct {
 	names       map[types.Object]string
 	used        map[string]bool
 	retType     string
+	sig         *types.Signature
 	named       []types.Object // named results
 	leanOf      map[*types.Func]string
 	calls       map[string]bool
@@ -587,6 +589,9 @@ func (t *tr) libCall(x *ast.CallExpr, o *types.Func) string {
 			fail(x, "strconv.ParseInt: only base 10, bitSize 64 is modelled")
 		}
 		return "(GB.Trans.parseInt10 " + e(0) + ")"
+	case "fmt.Errorf", "errors.New":
+		// a non-nil error; the message is not modelled (error results are Bool: true = non-nil)
+		return "true"
 	case "unicode/utf8.RuneStart":
 		return "(GB.Trans.runeStart " + e(0) + ")"
 	}
@@ -669,7 +674,12 @@ func (t *tr) stmts(list []ast.Stmt, c ctx, d int) string {
 			return ind(d) + t.ret(c, t.namedResults(x)) + "\n"
 		}
 		var p []string
-		for _, r := range x.Results {
+		for i, r := range x.Results {
+			if t.isNil(r) && len(x.Results) == t.sig.Results().Len() && leanType(r, t.sig.Results().At(i).Type()) == tErr &&
+				t.sig.Results().At(i).Type().String() == "error" {
+				p = append(p, "false") // a nil error
+				continue
+			}
 			p = append(p, t.expr(r))
 		}
 		v := p[0]
@@ -844,9 +854,28 @@ func (t *tr) switchStmt(x *ast.SwitchStmt, rest []ast.Stmt, c ctx, d int) string
 	}
 	var def *ast.CaseClause
 	var clauses []*ast.CaseClause
+	// effective body of each clause: `fallthrough` (only legal as the last statement) continues with the body
+	// of the next clause in source order, without evaluating its case expressions
+	eff := map[*ast.CaseClause][]ast.Stmt{}
+	for i := len(x.Body.List) - 1; i >= 0; i-- {
+		cc := x.Body.List[i].(*ast.CaseClause)
+		body := cc.Body
+		if n := len(body); n > 0 {
+			if br, ok := body[n-1].(*ast.BranchStmt); ok && br.Tok == token.FALLTHROUGH {
+				if i+1 >= len(x.Body.List) {
+					fail(br, "fallthrough in the last clause")
+				}
+				body = append(append([]ast.Stmt{}, body[:n-1]...), eff[x.Body.List[i+1].(*ast.CaseClause)]...)
+			}
+		}
+		eff[cc] = body
+	}
 	for _, s := range x.Body.List {
 		cc := s.(*ast.CaseClause)
-		for _, b := range cc.Body {
+		for bi, b := range cc.Body {
+			if br, ok := b.(*ast.BranchStmt); ok && br.Tok == token.FALLTHROUGH && bi == len(cc.Body)-1 {
+				continue
+			}
 			ast.Inspect(b, func(n ast.Node) bool {
 				switch y := n.(type) {
 				case *ast.BranchStmt:
@@ -883,13 +912,13 @@ func (t *tr) switchStmt(x *ast.SwitchStmt, rest []ast.Stmt, c ctx, d int) string
 		if len(alts) > 1 {
 			cond = "(" + strings.Join(alts, " || ") + ")"
 		}
-		body := append(append([]ast.Stmt{}, cc.Body...), rest...)
+		body := append(append([]ast.Stmt{}, eff[cc]...), rest...)
 		out += ind(dd) + "if " + cond + " then\n" + t.stmts(body, c, dd+1) + ind(dd) + "else\n"
 		dd++
 	}
 	var body []ast.Stmt
 	if def != nil {
-		body = append(append([]ast.Stmt{}, def.Body...), rest...)
+		body = append(append([]ast.Stmt{}, eff[def]...), rest...)
 	} else {
 		body = rest
 	}
@@ -1185,6 +1214,7 @@ func translate(p *packages.Package, fd *ast.FuncDecl, name string, leanOf map[*t
 		fail(fd, "function without a body")
 	}
 	sig := p.TypesInfo.Defs[fd.Name].(*types.Func).Type().(*types.Signature)
+	t.sig = sig
 	if sig.Variadic() {
 		fail(fd, "variadic functions are outside the subset")
 	}
